@@ -62,9 +62,12 @@ def main():
         result["checks"] = {}
         for c in checks:
             t0 = time.time()
-            p = subprocess.run(["/verif/check", c, tier], cwd="/verif", env=dict(ENV, VERIF_REPO=wt, VERIF_SEEDTEST="1"), capture_output=True, text=True, timeout=3600)
-            sigs = re.findall(r"signature: (.*)", p.stdout)
-            result["checks"][c] = {"tier": tier, "rc": p.returncode, "signatures": sigs[:12], "last_line": p.stdout.strip().splitlines()[-1] if p.stdout.strip() else "", "wall_s": round(time.time() - t0, 1)}
+            try:
+                p = subprocess.run(["/verif/check", c, tier], cwd="/verif", env=dict(ENV, VERIF_REPO=wt, VERIF_SEEDTEST="1"), capture_output=True, text=True, timeout=1500)
+                sigs = re.findall(r"signature: (.*)", p.stdout)
+                result["checks"][c] = {"tier": tier, "rc": p.returncode, "signatures": sigs[:12], "last_line": p.stdout.strip().splitlines()[-1] if p.stdout.strip() else "", "wall_s": round(time.time() - t0, 1)}
+            except subprocess.TimeoutExpired:
+                result["checks"][c] = {"tier": tier, "rc": -1, "signatures": [], "last_line": "check did not finish within 1500 s", "wall_s": round(time.time() - t0, 1)}
     except SystemExit:
         pass
     finally:
